@@ -3,6 +3,7 @@
 use crate::report::{RunReport, Violation};
 use serde_json::Value;
 
+pub mod c01;
 pub mod c06;
 
 #[derive(Clone, Copy, Debug, PartialEq)]
@@ -58,6 +59,8 @@ pub trait Prop: Sync {
 
 pub fn lookup(id: &str) -> Option<Box<dyn Prop>> {
     match id {
+        "C01" => Some(Box::new(c01::C01)),
+        "C05" => Some(Box::new(c01::C05)),
         "C06" => Some(Box::new(c06::C06)),
         _ => None,
     }
